@@ -402,10 +402,13 @@ func init() {
 		ID: "C19",
 		Harnesses: func(tier string) []HarnessSpec {
 			return []HarnessSpec{{Name: "multi-agent-history", Pkg: "cluster", Func: "ZZ_C19", Preempt: 0, Params: pm("N", tierSel(tier, 2, 3), "K", 3, "ROT", 1),
-				Witnesses: []string{"remote-activation", "duplicate-activation", "deactivate", "join-with-active-actors", "leave-with-hosted-actor", "cluster-spawn", "deactivate-of-an-inactive-actor"}, Deadline: 60 * time.Minute}}
+				Witnesses: []string{"remote-activation", "duplicate-activation", "deactivate", "join-with-active-actors", "leave-with-hosted-actor", "cluster-spawn", "deactivate-of-an-inactive-actor"}, Deadline: 60 * time.Minute},
+				// one concrete history (no symbolic input): a joiner learns a table of several hundred active actors
+				{Name: "joiner-learns-many-active-actors", Pkg: "cluster", Func: "ZZ_C19_Many", Preempt: 0, Params: pm("M", tierSel(tier, 300, 900)),
+					Witnesses: []string{"joiner-learned-many-active-actors"}, Deadline: 20 * time.Minute}}
 		},
 		Bounds: func(tier string) string {
-			return fmt.Sprintf("%d nodes, each registering kind 'a' or not (symbolic), the last one joining later; quiescent histories of 3 operations (activate a/x or a/y from any member with the select function picking any offered member and returning it either as the offered pointer or as a Member value of its own (symbolic), deactivate any active actor from any member, late join, leave of a member other than node 0, a Cluster.Spawn-style announcement of an actor ab/z (kind name prefix-related to 'a') hosted on any member whatever its kinds, Deactivate of a PID that is not active; operation symbolic), notifications delivered in every arrival order before the next operation", tierSel(tier, 2, 3))
+			return fmt.Sprintf("%d nodes, each registering kind 'a' or not (symbolic), the last one joining later; quiescent histories of 3 operations (activate a/x or a/y from any member with the select function picking any offered member and returning it either as the offered pointer or as a Member value of its own (symbolic), deactivate any active actor from any member, late join, leave of a member other than node 0, a Cluster.Spawn-style announcement of an actor ab/z (kind name prefix-related to 'a') hosted on any member whatever its kinds, Deactivate of a PID that is not active; operation symbolic), notifications delivered in every arrival order before the next operation; plus one concrete history in which a member whose agent knows %d active actors is joined by a second member that must learn them all", tierSel(tier, 2, 3), tierSel(tier, 300, 900))
 		},
 		Outside:     []string{"non-quiescent histories (operations overlapping their notifications)", "Cluster.Activate/GetActiveByID request plumbing: the agents are driven by the same messages those methods send", "Cluster.Spawn's own plumbing (Members() request): the harness spawns on the node's engine and sends the same Activation notifications", "more kinds / ids / members / operations", "SelectRandomMember (a harness select function picks every offered member instead)"},
 		Assumptions: seqAssume("each node: real Agent on a bare engine; network: synchronous in-memory Remoter delivering to the target node's registry; ActivationRequest/activate/getActive are handled at once (their senders block on them), all other agent messages are queued and drained in a harness-chosen order; activated actors are real processes spawned by Engine.Spawn (preemption bound 0: their inbox workers run when the harness blocks or quiesces)"),
